@@ -33,6 +33,7 @@ def run(ctx):
     c_delete(ctx)
     d_writers(ctx)
     e_drain(ctx)
+    f_flow_configs(ctx)
 
 
 def a_setters(ctx):
@@ -367,3 +368,40 @@ def _anc(node, stop):
     while p is not None and p is not stop:
         yield p
         p = getattr(p, "_parent", None)
+
+
+def f_flow_configs(ctx):
+    """Head positions are indexes into FlowConfig.elements: the element list of a flow that may
+    have running instances must never be replaced while the state lives."""
+    t = ctx.tree.ast(RT)
+    n = 0
+    for fn in functions(t):
+        stores = []
+        for x in walk_no_nested(fn):
+            if isinstance(x, ast.Call) and isinstance(x.func, ast.Attribute) and x.func.attr in ("update", "__setitem__", "setdefault") and src(x.func.value) == "state.flow_configs":
+                stores.append(x)
+            if isinstance(x, ast.Assign) and isinstance(x.targets[0], ast.Subscript) and src(x.targets[0].value) == "state.flow_configs":
+                stores.append(x)
+        if not stores:
+            continue
+        cfg = CFG(fn)
+        for st in stores:
+            n += 1
+            snode = cfg.node_of(st)
+            key = None
+            if isinstance(st, ast.Call) and st.args and isinstance(st.args[0], ast.Dict) and st.args[0].keys:
+                key = src(st.args[0].keys[0])
+            elif isinstance(st, ast.Assign):
+                key = src(st.targets[0].slice)
+            tests = [m for m in cfg.nodes if m.kind == "test" and isinstance(m.stmt, ast.If) and key is not None
+                     and re.sub(r"\s", "", src(m.ast)) == "%sinstate.flow_configs" % re.sub(r"\s", "", key) and cfg.dominates(m, snode)]
+            ok = False
+            for m in tests:
+                outs = {lab: x for x, lab in m.succ}
+                if True in outs and snode not in cfg.reachable([outs[True]], avoid={m}):
+                    ok = True
+            ctx.check("C09.f.flow-config-immutable", RT, qualname(fn), first_line(st), ok,
+                      "a flow configuration is stored only for a name that is not yet in state.flow_configs (existing definitions are never replaced)" if ok else
+                      "`%s` can overwrite the configuration of an existing flow: running instances keep head positions that index the OLD element list, so heads end up on non-waiting statements and the matching index goes stale" % first_line(st),
+                      line=st.lineno)
+    ctx.floor("C09.f.flow-config-immutable", RT, "run-time stores into state.flow_configs", n, 1)
